@@ -17,8 +17,8 @@ Rec == ndJsonDeserialize(IOEnv.TRACE)
 Strict == IOEnv.STRICT = "1"
 N == Len(Rec)
 
-VARIABLES l, pre
-tvars == <<vars, l, pre>>
+VARIABLES l, pre, wit
+tvars == <<vars, l, pre, wit>>
 Ev == Rec[l]
 Adv == l' = l + 1
 Live == l <= N
@@ -31,7 +31,7 @@ E0 == UNCHANGED env
 DummyCfg == [routing |-> "queuer", kph |-> [k \in Keys |-> [n \in 1 .. MaxW |-> 0]], ch |-> [k \in Keys |-> [n \in 1 .. MaxW |-> 0]]]
 InitAct(n) == [i \in Incs |-> IF i <= n THEN [NoAct EXCEPT !.wid = i - 1, !.st = "alive"] ELSE NoAct]
 Blank == /\ cfg = DummyCfg /\ f = InitF(0, -1, "none", NoLb, FALSE, TRUE) /\ fmq = <<>> /\ fsq = <<>>
-         /\ act = InitAct(0) /\ jb = [j \in JobIds |-> NoJob] /\ now = 0 /\ mon = InitMon /\ env = 0 /\ pre = <<>>
+         /\ act = InitAct(0) /\ jb = [j \in JobIds |-> NoJob] /\ now = 0 /\ mon = InitMon /\ env = 0 /\ pre = <<>> /\ wit = {}
 Reset == /\ IsA("reset") /\ Adv
          /\ cfg' = DummyCfg /\ f' = InitF(0, -1, "none", NoLb, FALSE, TRUE) /\ fmq' = <<>> /\ fsq' = <<>>
          /\ act' = InitAct(0) /\ jb' = [j \in JobIds |-> NoJob] /\ now' = 0 /\ mon' = InitMon /\ pre' = <<>> /\ E0
@@ -64,8 +64,7 @@ Hook == /\ IsA("obs.hook")
         /\ IF Ev.name = "started" THEN /\ mon.hook = 0 /\ mon' = [mon EXCEPT !.hook = 1] /\ Adv /\ KeepPre /\ E0
                                        /\ UNCHANGED <<cfg, f, fmq, fsq, act, jb, now>>
            ELSE IF Ev.name = "draining" THEN Buffer(Fx("hook", 0, 0, "draining"))
-           ELSE /\ FactoryStop /\ Adv /\ E0 /\ pre' = <<>>
-                /\ pre = SelectSeq(DiscAllShutdown(f).fx, LAMBDA e : e.e = "disc")
+           ELSE FactoryStopEnd /\ Adv /\ E0 /\ KeepPre
 
 -----------------------------------------------------------------------------
 (* factory steps *)
@@ -87,12 +86,15 @@ Done(S0, S, mk) == Commit(S0, S, mk) /\ pre' = <<>> /\ E0 /\ UNCHANGED <<cfg, no
 HeadIs(m, a, b, c) == fmq # <<>> /\ Head(fmq).m = m /\ Head(fmq).a = a /\ Head(fmq).b = b /\ Head(fmq).c = c
 Free == {"calc", "pong", "pings", "query"}
 StepStrict ==
-  /\ Strict /\ IsA("factory.step") /\ Adv /\ f.up = "run"
+  /\ Strict /\ IsA("factory.step") /\ Adv /\ f.up = "run" /\ (Ev.kind = "post_stop") = f.stopreq
   /\ LET k == Ev.kind IN
      IF k \in {"sup_term", "sup_fail"} THEN
           IF fsq # <<>> /\ Head(fsq).inc = Ev.a1
             THEN \E o \in Ords(f) : LET S == HandleSup(f, Ev.a1, o) IN Fits(S) /\ Done(f, S, "sup") /\ fsq' = Tail(fsq) /\ UNCHANGED fmq
             ELSE FALSE
+     ELSE IF k = "post_stop" THEN
+          /\ pre = SelectSeq(DiscAllShutdown(f).fx, LAMBDA e : e.e = "disc") /\ SnapOk(Clean(DiscAllShutdown(f)), Ev.snap)
+          /\ FactoryStopBegin /\ pre' = <<>> /\ E0
      ELSE IF k \in {"sup_started", "sup_other"} THEN Fits(f) /\ Done(f, f, "noop") /\ UNCHANGED <<fmq, fsq>>
      ELSE IF k \in Free THEN LET S == Handle(f, Msg(k, 0, 0, "", 0), IdOrd) IN Fits(S) /\ Done(f, S, k) /\ UNCHANGED <<fmq, fsq>>
      ELSE /\ CASE k = "dispatch" -> HeadIs(k, Ev.a1, Ev.a2, "")
@@ -115,6 +117,9 @@ SilentStep ==
      \/ /\ FQ /\ \E i \in 1 .. Len(f.q) : Expired(f.q[i])
         /\ LET S == Handle(f, Msg("calc", 0, 0, "", 0), IdOrd) IN Fits(S) /\ Done(f, S, "calc")
         /\ UNCHANGED <<fmq, fsq>>
+SilentStop == /\ ~Strict /\ Live /\ l' = l /\ f.stopreq
+              /\ pre = SelectSeq(DiscAllShutdown(f).fx, LAMBDA e : e.e = "disc")
+              /\ FactoryStopBegin /\ pre' = <<>> /\ E0
 SkipStep == ~Strict /\ IsA("factory.step") /\ Adv /\ KeepPre /\ E0 /\ UNCHANGED vars
 
 -----------------------------------------------------------------------------
@@ -144,7 +149,8 @@ Worker ==
                /\ fmq' = IF Sent THEN Append(fmq, Msg("finished", act[Ev.inc].wid, KeyOf(Ev.id), "", Ev.inc)) ELSE fmq
                /\ UNCHANGED <<cfg, f, fsq, now, mon>>
           ELSE WorkerEnd(Ev.inc, Ev.how)
-  \/ IsA("obs.w_kill") /\ Adv /\ KeepPre /\ E0 /\ Ev.inc \in Incs /\ WorkerKill(Ev.inc)
+  \/ /\ IsA("obs.w_kill") /\ Adv /\ KeepPre /\ E0 /\ Ev.inc \in Incs
+     /\ IF act[Ev.inc].st = "alive" THEN WorkerKill(Ev.inc) ELSE UNCHANGED vars
   \/ IsA("obs.w_dead") /\ Adv /\ KeepPre /\ E0 /\ Ev.inc \in Incs /\ MayDie(Ev.inc) /\ WorkerDead(Ev.inc)
   \/ IsA("obs.f_dead") /\ Adv /\ KeepPre /\ E0 /\ f.up = "dead" /\ UNCHANGED vars
 
@@ -153,9 +159,11 @@ End == /\ IsA("obs.end") /\ Adv /\ KeepPre /\ E0 /\ UNCHANGED vars
        /\ Range(Ev.fin.live) = LiveIncs
        /\ (f.up = "dead" => Ev.fin.fst >= 5)
        /\ (~Strict => (fmq = <<>> \/ f.up # "run" \/ \A i \in 1 .. Len(fmq) : FALSE))
-       /\ (mon.dev # {} => PrintT(<<"DEVIATION", mon.dev>>))
+       /\ (mon.dev # {} => PrintT(<<"DEVIATION", mon.dev \cup wit>>))
 
-TNext == Reset \/ Cfg \/ Time \/ WNew \/ Discard \/ Cast \/ Hook \/ StepStrict \/ SilentStep \/ SkipStep \/ TSubmit \/ Client \/ Worker \/ End
+TStep == Reset \/ Cfg \/ Time \/ WNew \/ Discard \/ Cast \/ Hook \/ StepStrict \/ SilentStep \/ SilentStop \/ SkipStep \/ TSubmit \/ Client \/ Worker \/ End
+\* remember which property-level readings were broken at some state of the run
+TNext == TStep /\ wit' = (IF IsA("reset") THEN {} ELSE wit \cup Broken')
 TInit == Blank /\ l = 1 /\ TLCSet(42, 1)
 TSpec == TInit /\ [][TNext]_tvars
 Progress == TLCSet(42, IF l > TLCGet(42) THEN l ELSE TLCGet(42))
